@@ -447,3 +447,26 @@ def finish(res, checker_cmd):
           f'{len(res.distinct)} distinct non-trivial, '
           f'{n_viol} violation(s), {evidence["wall_s"]} s')
     return status
+
+
+def arm_watchdog(handler, secs):
+    """Watchdog for implementation calls that may never return (unbounded loops).
+    The limit is on the CPU time of this process (ITIMER_PROF): a loop that does
+    not end burns CPU and is interrupted after `secs`, while a stall of a loaded
+    machine (other processes, disk) does not count.  A generous wall-clock
+    backstop (ITIMER_REAL, 20*secs+30) covers a call that blocks without
+    computing.  Returns the token for disarm_watchdog."""
+    import signal
+    old = (signal.signal(signal.SIGPROF, handler),
+           signal.signal(signal.SIGALRM, handler))
+    signal.setitimer(signal.ITIMER_PROF, secs)
+    signal.setitimer(signal.ITIMER_REAL, 20 * secs + 30)
+    return old
+
+
+def disarm_watchdog(old):
+    import signal
+    signal.setitimer(signal.ITIMER_PROF, 0)
+    signal.setitimer(signal.ITIMER_REAL, 0)
+    signal.signal(signal.SIGPROF, old[0])
+    signal.signal(signal.SIGALRM, old[1])
